@@ -152,7 +152,9 @@ def window_universe(w, margin=2, flavours=FLAVOURS, maps=True, vary=True, specia
     u = dict(flavours=flavours, x=xs, y=ys, z=zs, fmts=['png'], dimtoks=[''], vary=[])
     if vary:
         u['fmts'] = ['png', 'jpeg']
-        u['dimtoks'] = [''] + (list(w.dims) + ['default', 'bad'] if w.dims else ['bad'])
+        # besides the offered values: their spelling in the other case and DEFAULT (values are matched as they are
+        # written; a value that merely looks like an offered one names another cache directory and another upstream TIME)
+        u['dimtoks'] = [''] + (list(w.dims) + ['default', 'bad', w.dims[0].upper(), 'DEFAULT'] if w.dims else ['bad'])
         u['vary'] = [(0, 0), (1, 0), (mw, 0), (0, mh), (-1, 0)]
     if special:
         u['vary'] = list(u['vary'] or [(0, 0), (mw, 0)]) + [
@@ -743,7 +745,7 @@ def random_request(rng, w):
     d = ''
     if f in ('wmts_kvp', 'wmts_rest'):
         if w.dims:
-            d = rng.choice(list(w.dims) * 2 + ['', 'default', 'bad', 't0'])
+            d = rng.choice(list(w.dims) * 2 + ['', 'default', 'bad', 't0', rng.choice(list(w.dims)).upper(), 'Default'])
         elif f == 'wmts_kvp' and rng.random() < 0.2:
             d = 'bad'
     return {'kind': 'tile', 'f': f, 'z': z, 'x': x, 'y': y, 'fmt': fmt, 'd': d}
